@@ -27,6 +27,7 @@ import (
 	"fmt"
 
 	"github.com/dolthub/dolt/go/gen/fb/serial"
+	"github.com/dolthub/dolt/go/libraries/utils/verifhook"
 	"github.com/dolthub/dolt/go/store/chunks"
 	"github.com/dolthub/dolt/go/store/hash"
 	"github.com/dolthub/dolt/go/store/prolly"
@@ -873,6 +874,7 @@ func (db *database) update(
 
 		newRootHash = r.TargetHash()
 
+		verifhook.At("datas.update.beforeCommit")
 		err = db.tryCommitChunks(ctx, newRootHash, root)
 		if err != ErrOptimisticLockFailed {
 			return err
